@@ -281,10 +281,20 @@ pub async fn run_server_case(c: &ServerCase) -> Result<(bool, Vec<u8>, usize), S
     let (handle, addr, log): (ServerHandle, std::net::SocketAddr, crate::hserver::Log) = match c.variant {
         Variant::Tcp => {
             let app = net_app(&[1]);
-            let (listener, addr) = listen(listen_ip).await;
+            let (mut listener, mut addr) = listen(listen_ip).await;
             let handle = if c.spawn {
-                drop(listener);
-                spawn_tcp_server_task(4, addr, app.map.clone(), filter, DecodeLevel::nothing()).await.map_err(|e| e.to_string())?
+                let mut tries = 0;
+                loop {
+                    drop(listener);
+                    match spawn_tcp_server_task(4, addr, app.map.clone(), filter.clone(), DecodeLevel::nothing()).await {
+                        Ok(h) => break h,
+                        Err(e) if tries >= 8 => return Err(e.to_string()),
+                        Err(_) => {
+                            tries += 1;
+                            (listener, addr) = listen(listen_ip).await;
+                        }
+                    }
+                }
             } else {
                 let (h, task) = create_tcp_server_task(4, listener, app.map.clone(), filter, DecodeLevel::nothing());
                 tokio::spawn(task.run());
